@@ -134,3 +134,26 @@ Example periodic_nonvacuous :
   = sample pi (fun l b => (l, b)) ZeroRight 7 3 (1 # 3) (1 # 5)
   /\ sample pi (fun l b => (l, b)) ZeroRight 7 3 (1 # 3) (1 # 5) = (1%Z, 6%Z).
 Proof. vm_compute. split; reflexivity. Qed.
+
+(* ------------------------------------------------------------------ *)
+(* `toasty tile-allsky` (cli.tile_allsky_impl), tied by TRANSLATION: Generated/CliAllskySrc.v is the
+   decision tree of the function produced from toasty/cli.py in /repo's working tree on every
+   build.  Under every valuation of its settings it behaves like the hand-written model
+   (Model/CliScript.v), in which the projection name the user gives selects the sampler factory of
+   THAT projection (the samplers the theorems above speak about) and its planet / panorama flags,
+   and an unknown name dies.  Proofs in Proofs/CliAllskyP.v. *)
+From Coq Require Import String List.
+From Toasty Require Import Model.SrcPrelude Model.CliScript Generated.CliAllskySrc Proofs.CliAllskyP.
+
+Theorem src_tile_allsky_command_is_model :
+  forall (is_none : sval unit -> bool) (eq_lit : sval unit -> string -> bool) (is_true : sval unit -> bool),
+  run_tree is_none eq_lit is_true src_cli_tile_allsky_impl = tile_allsky_impl_model eq_lit is_true.
+Proof. exact src_tile_allsky_impl_eq. Qed.
+Print Assumptions src_tile_allsky_command_is_model.
+
+Theorem projection_selects_its_sampler :
+  forall (p fn : string) (pl pa : bool) (is_true : sval unit -> bool),
+  In (p, (fn, pl, pa)) projection_table ->
+  tile_allsky_impl_model (fun _ s => String.eqb p s) is_true = (true, allsky_calls fn pl pa is_true).
+Proof. exact allsky_projection_selects. Qed.
+Print Assumptions projection_selects_its_sampler.
